@@ -63,7 +63,11 @@ func apiFuncs(w *World, shorts []string) []*ssa.Function {
 	return out
 }
 
+// declaredResultAlias: API functions whose result is documented to share memory with an argument.
+var declaredResultAlias = map[string]string{}
+
 func runC19(c *Ctx, w *World, r *Report) {
+	r.Rule("R-RESULT-FRESH", "an API function's result shares no memory with its arguments or with package-level variables (a caller writing into such a result would modify a shared input or table; a string result aliasing a caller's buffer changes when the buffer is reused); declared exceptions are listed with a reason")
 	r.Rule("R-PURE-ARG", "an API function's may-write set (over-approximated, inter-procedural, through aliases, closures, unsafe casts, append/copy and summarised callees) contains no memory reachable from its arguments; declared mutators may write through their receiver only")
 	r.Rule("R-PURE-GLOBAL", "no function reachable from the API writes a package-level variable (writers must be reachable from package initialisers only)")
 	r.Rule("R-PURE-READ", "a function reachable from the API reads a package-level variable only if every store to it is in code reachable only from package initialisation")
@@ -171,6 +175,37 @@ func runC19(c *Ctx, w *World, r *Report) {
 				r.Bad("R-PURE-ARG", name, pos, strings.Join(bad, "; "), facts...)
 			} else {
 				r.OK("R-PURE-ARG", name, pos, facts...)
+			}
+		}
+		// R-RESULT-FRESH at API level
+		if isAPI[fn] {
+			var abad []string
+			for rt := range s.ret {
+				switch rt.kind {
+				case rkParam:
+					if mut && rt.idx == 0 {
+						continue
+					}
+					pn := fmt.Sprint(rt.idx)
+					if rt.idx < len(fn.Params) {
+						pn = fn.Params[rt.idx].Name()
+					}
+					if why, ok := declaredResultAlias[name]; ok {
+						_ = why
+						continue
+					}
+					abad = append(abad, fmt.Sprintf("result may alias memory reachable from parameter %q", pn))
+				case rkGlobal:
+					abad = append(abad, "result may alias package-level variable "+rt.String())
+				case rkUnknown:
+					abad = append(abad, "result may alias memory of unknown origin")
+				}
+			}
+			sort.Strings(abad)
+			if len(abad) > 0 {
+				r.Bad("R-RESULT-FRESH", name, pos, strings.Join(abad, "; "))
+			} else {
+				r.OK("R-RESULT-FRESH", name, pos)
 			}
 		}
 		// R-PURE-GLOBAL
